@@ -59,7 +59,7 @@ fn c03_platt_range_f64() {
 }
 
 // the limits of the documented g = 1/(1+exp(z)) when A*x+B overflows to +-inf
-// @unit class=complete tier=quick mem=light timeout=600 fns=linfa::composing::platt_scaling::platt_predict
+// @unit class=complete tier=thorough mem=light timeout=1800 fns=linfa::composing::platt_scaling::platt_predict
 #[kani::proof]
 #[kani::unwind(6)]
 #[kani::stub(f32::exp, ghost_exp32)]
@@ -77,7 +77,7 @@ fn c03_platt_limits_f32() {
 
 // ---- the sigmoid is centred: negative decision side => p >= 1/2, non-negative => p <= 1/2 ----
 // (one harness per sign so that each query contains a single float division)
-// @unit class=complete tier=thorough mem=light timeout=1200 fns=linfa::composing::platt_scaling::platt_predict
+// @unit class=complete tier=thorough mem=light timeout=2400 fns=linfa::composing::platt_scaling::platt_predict
 #[kani::proof]
 #[kani::unwind(6)]
 #[kani::stub(f32::exp, ghost_exp32)]
@@ -93,7 +93,7 @@ fn c03_platt_half_neg_f32() {
     kani::cover!(*p == 0.5);
 }
 
-// @unit class=complete tier=thorough mem=light timeout=1200 fns=linfa::composing::platt_scaling::platt_predict
+// @unit class=complete tier=thorough mem=light timeout=2400 fns=linfa::composing::platt_scaling::platt_predict
 #[kani::proof]
 #[kani::unwind(6)]
 #[kani::stub(f32::exp, ghost_exp32)]
@@ -112,7 +112,7 @@ fn c03_platt_half_pos_f32() {
 // The same two claims as a cheap BOUNDED unit for the quick tier (the complete units above take
 // 11-14 min each): A = +1 or -1, B a symbolic integer in [-4,4] (z = +-x + B, x any finite f32),
 // exp values on the 8-bit grid defined below.
-// @unit class=bounded tier=quick mem=light bound="A=+-1,B integer in [-4;4],exp values 0 or 8-bit significand in [2^-8;1]" timeout=600 fns=linfa::composing::platt_scaling::platt_predict
+// @unit class=bounded tier=quick mem=light bound="A=+-1,B=-4..4,exp on 8-bit grid" timeout=600 fns=linfa::composing::platt_scaling::platt_predict
 #[kani::proof]
 #[kani::unwind(6)]
 #[kani::stub(f32::exp, grid_exp32)]
@@ -156,7 +156,7 @@ fn grid_exp32(x: f32) -> f32 {
     r
 }
 
-// @unit class=bounded tier=quick mem=light bound="A=+-1,B=0,exp values 0 or 8-bit significand in [2^-8;1]" timeout=600 fns=linfa::composing::platt_scaling::platt_predict
+// @unit class=bounded tier=quick mem=light bound="A=+-1,B=0,exp on 8-bit grid" timeout=600 fns=linfa::composing::platt_scaling::platt_predict
 #[kani::proof]
 #[kani::unwind(6)]
 #[kani::stub(f32::exp, grid_exp32)]
@@ -179,7 +179,7 @@ fn c03_platt_monotone_neg_grid() {
     kani::cover!(a < 0.0 && *p1 > *p2);
 }
 
-// @unit class=bounded tier=quick mem=light bound="A=+-1,B=0,exp values 0 or 8-bit significand in [2^-8;1]" timeout=600 fns=linfa::composing::platt_scaling::platt_predict
+// @unit class=bounded tier=quick mem=light bound="A=+-1,B=0,exp on 8-bit grid" timeout=600 fns=linfa::composing::platt_scaling::platt_predict
 #[kani::proof]
 #[kani::unwind(6)]
 #[kani::stub(f32::exp, grid_exp32)]
